@@ -2,6 +2,8 @@ import subprocess
 
 from exactly_lib.util.file_utils.std import StdFiles
 from exactly_lib.util.process_execution.execution_elements import Executable, ProcessExecutionSettings
+from exactly_lib.util import verif_trace
+import os
 
 
 class ProcessExecutionException(Exception):
@@ -23,6 +25,13 @@ class ProcessExecutor:
         :return: Exit code from successful execution
         :raises ExecutionException: Either unable to execute, or execution timed out
         """
+        verif_trace.emit('proc', lambda: dict(
+            shell=executable.is_shell,
+            cmd=executable.arg_list_or_str,
+            timeout=settings.timeout_in_seconds,
+            cwd=os.getcwd(),
+            env_is_none=settings.environ is None,
+            env=verif_trace.tracked_env(settings.environ)))
         try:
             return subprocess.call(
                 executable.arg_list_or_str,
